@@ -105,6 +105,31 @@ class PickyExc(Exception):
         self.k = k
 
 
+class FalsyExc(Exception):
+    """a source's exception that is FALSY (an error collection that happens to be empty defines __len__): still an exception"""
+    def __init__(self, k, text):
+        super().__init__(k, text)
+        self.k = k
+
+    def __len__(self):
+        return 0
+
+
+class FrozenExc(Exception):
+    """a source's exception that refuses new attributes (frozen dataclass style): the stage hands it on, it does not decorate it"""
+    def __init__(self, k, text):
+        super().__init__(k, text)
+        object.__setattr__(self, 'k', k)
+
+    def __setattr__(self, name, value):
+        if name in ('__traceback__', '__context__', '__cause__', '__suppress_context__', '__notes__'):
+            return super().__setattr__(name, value)
+        raise TypeError('cannot assign to field %r' % name)
+
+
+SOURCE_EXC_KINDS = {'picky': PickyExc, 'falsy': FalsyExc, 'frozen': FrozenExc}
+
+
 def make_exc(k, func=False):
     types = FUNC_EXC_TYPES if func else EXC_TYPES
     return types[k % len(types)](k, 'payload-%d' % k)
@@ -112,6 +137,8 @@ def make_exc(k, func=False):
 
 def identify_exc(e):
     if type(e) is PickyExc and e.args == ('payload at record %d' % e.k,):
+        return e.k
+    if type(e) in (FalsyExc, FrozenExc) and e.args == (e.k, 'payload'):
         return e.k
     if type(e) is RuntimeError and isinstance(e.__cause__, StopIteration) and 'StopIteration' in str(e):
         e = e.__cause__
@@ -355,7 +382,7 @@ class Src:
         if self.i >= self.n:
             if self.tail is not None and not (self.resume and self.raised):
                 self.raised = True
-                raise (PickyExc(self.tail, 'payload') if self.picky else make_exc(self.tail))
+                raise (SOURCE_EXC_KINDS[self.picky](self.tail, 'payload') if self.picky else make_exc(self.tail))
             if self.resume and self.i < self.n + self.resume:
                 self.i += 1
                 return self.i - 1
@@ -387,7 +414,7 @@ def make_src(case, n, tail, pe):
         src = Src(n, tail, pe, case.get('resume', 0))
     src.sulky = bool(case.get('unprintable_elements'))
     src.element_kind = case.get('element_kind') or 'plain'
-    src.picky = case.get('source_exception') == 'picky'
+    src.picky = case.get('source_exception') if case.get('source_exception') in SOURCE_EXC_KINDS else False
     if case.get('closable_source'):
         # a source that is also a resource (a reader with close()): whether and when it is closed is the caller's business;
         # if somebody does call close() here, it complains the way a generator with a failing `finally` does
